@@ -178,6 +178,12 @@ class Sys(object):
                 q = [np.asarray(a.sol(np.float64(tt[k] + 0.5 * (tt[k + 1] - tt[k]))), dtype=np.float64).copy() for k in ks]
             except Exception as e:
                 q = [repr(e)]
+        if a.sol is None and len(tt) >= 2 and np.all(np.isfinite(tt)):
+            # without dense output: nearest-sample lookups by time and the slice over the whole record
+            try:
+                q = [np.asarray([float(a[np.float64(tt[0] + fr * (tt[-1] - tt[0]))].t)]) for fr in (0.3, 0.71)] + [np.asarray([float(len(a[float(tt[0]):float(tt[-1])].t))])]
+            except Exception as e:
+                q = [repr(e)]
         return dict(t=np.asarray(a.t).copy(), y=np.asarray(a.y).copy(), ev=[(float(e.t), np.asarray(e.y).copy()) for e in a.events], dt=float(a.dt), nfev=a.nfev,
                     status=a.integration_status, npieces=(len(a.sol.t_eval or []) if a.sol is not None else None), q=q)
 
@@ -207,7 +213,7 @@ def _same(s1, s2):
         return "dense output differs ({} vs {} pieces)".format(s1["npieces"], s2["npieces"])
     q1, q2 = s1.get("q"), s2.get("q")
     if (q1 is None) != (q2 is None) or (q1 is not None and (len(q1) != len(q2) or any(isinstance(u, str) or isinstance(v, str) or not np.array_equal(u, v, equal_nan=True) for u, v in zip(q1, q2)))):
-        return "dense-output values inside recorded steps differ ({} vs {})".format([u if isinstance(u, str) else np.asarray(u).tolist() for u in (q1 or [])][:2], [v if isinstance(v, str) else np.asarray(v).tolist() for v in (q2 or [])][:2])
+        return "lookups by time (dense-output values inside recorded steps / nearest samples and the whole-record slice) differ ({} vs {})".format([u if isinstance(u, str) else np.asarray(u).tolist() for u in (q1 or [])][:2], [v if isinstance(v, str) else np.asarray(v).tolist() for v in (q2 or [])][:2])
     return None
 
 
